@@ -391,8 +391,7 @@ Definition recover (d : disk) : rstore :=
   let srcs := (match mems with [] => [[]] | _ => mems end) ++ rev (sst_chunks d v) in
   {| s_src := srcs; s_vlog := drop_empty_sealed (reconcile (m_vlogs v) (d_vlog d)); s_seq := max_seq srcs |}.
 
-(** * Reads on a recovered store (LSM.Get: the first source holding a version <= the
-      requested one answers with its newest such version; then the value pointer is resolved) *)
+(** * Reads on a recovered store (LSM.Get, then the value pointer is resolved) *)
 
 Definition rk_ltb (a b : rec) : bool := (r_ver a <? r_ver b) || ((r_ver a =? r_ver b) && (r_seq a <? r_seq b)).
 
@@ -405,11 +404,24 @@ Fixpoint best (k ver : N) (rs : list rec) (acc : option rec) : option rec :=
       else best k ver rs' acc
   end.
 
-Fixpoint lookup_src (k ver : N) (srcs : list (list rec)) : option rec :=
+(** LSM.Get as repaired by 2f52ea0: over every source in lookup order keep the hit with the
+    greatest version <= the requested one; a later source replaces the current hit only with a
+    strictly greater version (the first source wins ties; an exact match cannot be improved). *)
+Fixpoint lookup_acc (k ver : N) (srcs : list (list rec)) (acc : option rec) : option rec :=
   match srcs with
-  | [] => None
-  | s :: t => match best k ver s None with Some r => Some r | None => lookup_src k ver t end
+  | [] => acc
+  | s :: t =>
+      lookup_acc k ver t
+        (match best k ver s None with
+         | Some r => match acc with
+                     | Some a => if r_ver a <? r_ver r then Some r else acc
+                     | None => Some r
+                     end
+         | None => acc
+         end)
   end.
+
+Definition lookup_src (k ver : N) (srcs : list (list rec)) : option rec := lookup_acc k ver srcs None.
 
 Inductive obsv := OA | OV (vid : N) | OU | OG | OD.
 
@@ -433,8 +445,9 @@ Definition get (s : rstore) (k : N) : obsv :=
 Definition add_head (r : rec) (srcs : list (list rec)) : list (list rec) :=
   match srcs with [] => [[r]] | s :: t => (s ++ [r]) :: t end.
 
-(** vlog_gc.go:rewrite.  Liveness of every record of the file is decided against the store
-    as it is before any write-back; the live ones are written back through the write path
+(** vlog_gc.go:rewrite (as repaired: only the record the LSM tree points at is live,
+    fixes/C11-gc-live-pointer-equality.md).  Liveness of every record of the file is decided
+    against the store as it is before any write-back; the live ones are written back through the write path
     (active value-log file of the bucket, newest memtable); the file is deleted only when
     nothing was written back (with a non-empty write-back the function returns
     ErrEmptyKey from its final check and leaves the file in place). *)
@@ -442,7 +455,7 @@ Definition gc_live (s : rstore) (b f : N) (i : N) (vr : vrec) : bool :=
   match lookup_src (v_key vr) (v_ver vr) (s_src s) with
   | Some r => negb (r_del r) &&
               match r_ptr r with
-              | Some p => (p_b p =? b) && negb ((f <? p_f p) || ((p_f p =? f) && (i <? p_slot p)))
+              | Some p => (p_b p =? b) && (p_f p =? f) && (p_slot p =? i)
               | None => false
               end
   | None => false
